@@ -1,6 +1,8 @@
+import Proofs.TruncBalance
 import Proofs.TruncFunds
 import Proofs.Reachable
 import Properties.C03
+import Properties.C06
 import CModel.Generated.Consts
 /-!
 # C07 — truncation is transparent
@@ -101,6 +103,44 @@ theorem checkpoint_is_net_flow {b : Book} (r : Reachable b) (cut : Hash) (h : (b
 whose moved history is fully accounted: `checkpoint' = checkpoint + in − out` is what C01/C06 add the
 remaining (live) flows to. Non-vacuity: a book with one checkpoint entry. -/
 example : cpVal { self := "n", cpFunds := [("w", ⟨5, 0⟩)] } "w" = 5000000000000000000 := by decide
+
+/-- **Truncation changes no balance seen from a tip that descends from the cut.** For any reachable ledger,
+any cut, any tip `t` that is the cut itself or a descendant of it, any wallet `a`: if the balance query from
+`t` succeeds before and after the truncation, both report the same amount — provided the wallet's net flow over
+the moved vertices is not negative (otherwise the checkpoint is clipped: the recorded genesis-issuer finding).
+(For a tip that does NOT descend from the cut the statement is false: recorded finding
+`stale-tip-credited-with-foreign-checkpoint`.) -/
+theorem balance_unchanged_above_cut {b : Book} (r : Reachable b) (cut : Hash) (hok : (b.truncateAt cut).2 = .ok ())
+    (t : Vertex) (ht : t ∈ (b.truncateAt cut).1.verts) (hdesc : t.hash = cut ∨ Anc b.edges cut t.hash)
+    (a : Addr) (m m' : Melange) (hb : b.calculateBalance t a = .ok m) (ha : (b.truncateAt cut).1.calculateBalance t a = .ok m') :
+    ∃ mv, (b.truncateAt cut).1.cpVerts = b.cpVerts ++ mv ∧
+      (outflow a mv ≤ cpVal b a + inflow a mv → val m' = val m) := by
+  obtain ⟨mv, hmv, hin, _, hcv, hverts, _, hcp, _⟩ := truncateAt_ok hok
+  refine ⟨mv, hcv, fun hcov => ?_⟩
+  have hnd : (b.verts.map (·.hash)).Nodup := by
+    have := r.inv.idx.nodupV
+    unfold allV at this
+    rw [List.map_append] at this
+    exact (List.nodup_append.mp this).1
+  have htb : t ∈ b.verts := by rw [hverts] at ht; exact (List.mem_filter.mp ht).1
+  have r' : Reachable (b.truncateAt cut).1 := Reachable.truncate cut r
+  have e1 := (Props.C06.balance_exact r t htb a m hb).1
+  have e2 := (Props.C06.balance_exact r' t ht a m' ha).1
+  have bounds := calculateBalance_ok_bounds r.fundsOK t (r.fundsOK.verts t htb) a m hb
+  have p := walk_split b r.edgeInv hnd cut hok mv hmv hin hverts t ht hdesc
+  have i1 : inflow a (walk b t) = inflow a (walk (b.truncateAt cut).1 t) + inflow a mv := by
+    rw [inflow_perm p, inflow_append]
+  have o1 : outflow a (walk b t) = outflow a (walk (b.truncateAt cut).1 t) + outflow a mv := by
+    rw [outflow_perm p, outflow_append]
+  have hcanon : ∀ v ∈ mv, Melange.Canon v.trx.spice := fun v hv =>
+    (canonB_iff _).1 (r.inv.canon v (List.mem_append_left _ (hin v hv)))
+  have hcpc : ∀ e ∈ b.cpFunds, Melange.Canon e.2 := fun e he => (canonB_iff _).1 (r.inv.cpCanon e he)
+  have ck := (newCpFunds_exact b mv a r.cpKeys hcpc hcanon (by omega) (by omega) hcov).1
+  have ck' : cpVal (b.truncateAt cut).1 a + outflow a mv = cpVal b a + inflow a mv := by
+    unfold cpVal cpFundsGet
+    rw [hcp]
+    exact ck
+  omega
 
 /-- Generated obligations: the constants of the truncation rule are the ones in today's source. -/
 theorem gen_truncateDiff : Generated.accountant_truncateDiff = Book.truncateDiff := by decide
